@@ -59,4 +59,26 @@ def check_C10(run):
                       "post-state class (kept / converted) per field; distinct = distinct (program, valuation, post-state)", n, len(kinds))
 
 
-CHECKS = {"C05": check_C05, "C10": check_C10}
+def check_C11(run):
+    import fam_rules
+    # pointer clauses (T -> *U non-nil, *T -> U only with the flag: nil -> zero value) are clauses of SMap / Conv
+    # in the rules family: their fingerprints for pairs with a pointer asymmetry are re-emitted under C11
+    fam_rules.pipeline(run, "C11")
+    summ, obs = pipeline(run)
+    kinds = set()
+    n = 0
+    for r in read_ndjson(obs):
+        if r["kind"] != "default":
+            continue
+        n += 1
+        kinds.add((str(r["prog"]), r.get("srcNil"), str(r.get("res"))))
+        if len(run.samples) < 4 and r["gen"] == "ok" and r["prog"]["ignoreB"]:
+            run.samples.append({"prog": r["prog"], "nil_source": r["srcNil"], "result": r["res"]})
+    run.assumptions = ["default FUNC without error result and without context; struct{A,B int} on both sides; FUNC yields {100,200}, the source {5,6}",
+                       "a non-nil pointer source without default:update replaces FUNC's result (documented): ignored fields are then unconstrained"]
+    return run.finish("(i) all generating pairs of the pointer universe (T, *T, **T on either side in top/field/element/map positions, flag on/off) executed on all enumerated inputs; "
+                      "(ii) all 48 default-constructor programs (source/target pointer or value, FUNC returning value or pointer, with/without source argument, default:update, ignore) on a non-nil and a nil source; "
+                      "distinct = distinct (program, input, result)", n + summ.get("executions", 0), len(kinds) + 2)
+
+
+CHECKS = {"C05": check_C05, "C10": check_C10, "C11": check_C11}
